@@ -89,8 +89,8 @@ def design_checks(chk, tier):
     thorough = tier == "thorough"
     inv = "".join("INVARIANT %s\n" % i for i in INVARIANTS)
     if thorough:
-        c = constants(intervals=(3, 7, 12), retries=(0, 1, 2), die=(0, 4), modes=ALL_MODES, durations=(2, 6), notify_by=14, max_outputs=2,
-                      extkill=True, max_faults=1, shapes=("direct", "two", "sameNameEarlierLast", "earlierOnly"))
+        c = constants(intervals=(3, 7, 12), retries=(0, 1, 2), die=(0, 4), modes=ALL_MODES, durations=(2, 6), notify_by=12, max_outputs=2,
+                      extkill=True, max_faults=1, shapes=("direct", "two", "earlierOnly"))
     else:
         c = constants(intervals=(3, 12), retries=(0, 2), die=(0, 4), modes=ALL_MODES, durations=(2, 6), notify_by=8, max_outputs=1,
                       extkill=True, max_faults=1, shapes=("direct", "two", "earlierOnly"))
